@@ -48,6 +48,7 @@ fn main() {
                 "c02pairs" => drive_ops::drive_c02pairs(seed, thorough, &mut out),
                 "c15" => drive_ops::drive_c15(seed, thorough, &mut out),
                 "c16" => drive_ops::drive_c16(seed, thorough, &mut out),
+                "c12" => drive_ops::drive_c12(seed, thorough, &mut out),
                 "c13" => drive_ops::drive_c13(seed, thorough, &mut out),
                 "c17" => drive_data::drive_c17(seed, thorough, &mut out),
                 "c18" => drive_data::drive_c18(seed, thorough, &mut out),
